@@ -98,6 +98,28 @@ def c03(ctx, rep):
             else:
                 rep.violation("model Front.parse_class and ast.CharClassMatcher.parse disagree on class %s" % txt,
                               {"class": txt, "front_end": real, "model": q1}, found=False)
+    # model of the literal reader on every literal token: equals the denoted bytes (the real front-end's values were
+    # compared with the denoted AST above)
+    lits = {}
+    for d in cases:
+        for ll in d.get("lits") or []:
+            raw, val = ll.split("|")
+            lits[raw] = val
+    nlit = 0
+    if lits:
+        f = ctx.sc.path("lits.txt")
+        with open(f, "w") as fh:
+            fh.write("\n".join(sorted(lits)) + "\n")
+        q = subprocess.run([ctx.model(), "-unq", f], stdout=subprocess.PIPE, stderr=subprocess.PIPE, text=True, timeout=600)
+        if q.returncode != 0:
+            raise RuntimeError("model -unq failed: " + q.stderr[-500:])
+        for l in q.stdout.splitlines():
+            raw, got = l.split("|")
+            nlit += 1
+            if got != lits.get(raw):
+                rep.violation("model FrontLit.unquote reads the literal %s as %s, it denotes %s" % (bytes.fromhex(raw).decode("utf-8", "replace"), got, lits.get(raw)),
+                              {"literal_hex": raw, "model": got, "denoted": lits.get(raw)}, found=False)
+    rep.cov["literal_tokens_checked_against_model"] = nlit
     rep.cov["evaluations"] = 2 * len(cases) + len(real_class_lines)
     rep.cov["distinct_nontrivial"] = len({hashlib.sha1(d["nopos"].encode()).hexdigest() for d in cases if d["nopos"].count("\n") > 4})
     rep.cov["distribution"] = {"grammars": len(cases), "ast_nodes_compared": nodes, "class_texts": len(real_class_lines),
